@@ -669,7 +669,7 @@ func run(c *vf.Ctx) {
 			{name: "combo2", cache: []int{0, 1, 64}[rng.IntN(3)], fast: fastOn, reopenEvery: 1 + rng.IntN(3), prune: 1 + rng.IntN(3),
 				backend: "memdb", crashRollback: true, excursions: rng.IntN(2) == 0},
 		}
-		if i%4 == 1 && len(h.Ops) <= 1200 {
+		if i%2 == 1 && len(h.Ops) <= 1300 {
 			variants = append(variants, variant{name: "disk", cache: 64, fast: rng.IntN(2), reopenEvery: 1 + rng.IntN(3), prune: rng.IntN(3), backend: "goleveldb"})
 		}
 		for vi, v := range variants {
